@@ -292,7 +292,10 @@ theorem frameInto_decP (t : TCfg) (r : R) (buf : Bytes) (h : P r.dec) : P (frame
           | mk r3 res => rw [hy] at hf; cases res <;> exact hf
 
 theorem nextFrameBuf_decP (t : TCfg) (r : R) (buf : Bytes) (h : P r.dec) : P (nextFrameBuf cfg t r buf).1.dec := by
-  unfold nextFrameBuf
+  by_cases hc : r.sub.cur.isSome = true
+  · rw [nextFrameBuf_some cfg t r buf hc]; exact frameInto_decP hP t r buf h
+  rw [nextFrameBuf_eq, if_neg hc]
+  unfold nextFrameBuf0
   by_cases hrem : r.remaining = 0
   · rw [if_pos hrem]; exact h
   · rw [if_neg hrem]
